@@ -479,6 +479,9 @@ func (fi *FuncInfo) transfer(in ssa.Instruction, set func(ssa.Value, []PVal), ch
 		fi.callPts(x, set, changed)
 	case *ssa.MakeInterface, *ssa.BinOp, *ssa.Index, *ssa.Field, *ssa.If, *ssa.Jump, *ssa.Return, *ssa.Panic,
 		*ssa.MakeClosure, *ssa.DebugRef, *ssa.Defer, *ssa.RunDefers:
+	case *ssa.ChangeInterface:
+		// interface-to-interface conversion (an error value passed to panic): interfaces carry no tracked pointer
+		// (MakeInterface of a pointer into the packages' storage is reported where it is made)
 	default:
 		a.problem(f, in, "no points-to transfer function for %T", in)
 	}
@@ -1423,15 +1426,12 @@ func (fi *FuncInfo) dataflow() {
 		if n := res.Len(); n > 0 && isErrorType(res.At(n-1).Type()) {
 			ev := ret.Results[n-1]
 			rs.Err = 2
+			if k := fi.A.P.ErrNil(ev); k != 2 {
+				// the nil constant; errors.New / fmt.Errorf; a sentinel error variable (written once, by the
+				// initialiser, with a non-nil error); a non-nil concrete value boxed into the interface
+				rs.Err = k
+			}
 			switch e := ev.(type) {
-			case *ssa.Const:
-				if e.Value == nil {
-					rs.Err = 0
-				}
-			case *ssa.Call:
-				if cal := e.Common().StaticCallee(); cal != nil && cal.String() == "errors.New" {
-					rs.Err = 1
-				}
 			case *ssa.Extract:
 				if call, ok := e.Tuple.(*ssa.Call); ok {
 					if cal := call.Common().StaticCallee(); cal != nil && fi.A.Info[cal] != nil {
